@@ -1130,13 +1130,23 @@ def _float_angle(x: float):
         if abs(q * den - k) < 1e-12 * max(1, abs(k)):
             return Ang({}, Fraction(k, den))
     aa = _FLOAT_ANGLES.get(x)
+    if aa is None and x != 0:
+        # an integer multiple of an angle already abstracted (the library halves and
+        # negates float angles before taking cos/sin): reuse that atom
+        for other in _FLOAT_ANGLES.values():
+            mlt = x / other.value
+            k = round(mlt)
+            if k != 0 and abs(k) <= 256 and abs(mlt - k) < 1e-9:
+                return Ang({other: k}, F0)
     if aa is None:
-        nm = f"ang[{x!r}]"
+        # basic atom is x/4 so that the halves and quarters the library takes
+        # (theta / 2 in rotation gates) stay representable
+        nm = f"ang[{x!r}/4]"
         a = angle(nm)
         aa = next(iter(a.terms))
-        aa.value = x
+        aa.value = x / 4
         _FLOAT_ANGLES[x] = aa
-    return Ang({aa: 1}, F0)
+    return Ang({aa: 4}, F0)
 
 
 class Ang:
